@@ -297,12 +297,14 @@ Qed.
 Theorem process_slots_reaches E f st t f' st' : process_slots E f st t = Some (f', st') -> slot st' = t.
 Proof.
   intros H. unfold process_slots in H. destruct (N.ltb_spec (slot st) t); [|discriminate H].
+  destruct (_ <=? _); [|discriminate H].
   apply slots_loop_frame in H; [apply H|lia].
 Qed.
 Theorem process_slots_genesis E f st t f' st' : process_slots E f st t = Some (f', st') ->
   genesis_time st' = genesis_time st /\ genesis_validators_root st' = genesis_validators_root st.
 Proof.
   intros H. unfold process_slots in H. destruct (N.ltb_spec (slot st) t); [|discriminate H].
+  destruct (_ <=? _); [|discriminate H].
   apply slots_loop_frame in H; [apply H|lia].
 Qed.
 
@@ -327,19 +329,23 @@ Proof.
     apply IH; lia.
 Qed.
 
-Theorem process_slots_compose E f st t t' : slot st < t -> t < t' ->
+(* (the Spec refuses to advance more than MAX_SLOTS_PER_CALL slots in one call, hence the third hypothesis) *)
+Theorem process_slots_compose E f st t t' : slot st < t -> t < t' -> t' - slot st <= MAX_SLOTS_PER_CALL ->
   process_slots E f st t' =
   match process_slots E f st t with
   | Some (f1, st1) => process_slots E f1 st1 t'
   | None => None
   end.
 Proof.
-  intros H1 H2. unfold process_slots at 1 2.
+  intros H1 H2 H3. unfold process_slots at 1 2.
   destruct (N.ltb_spec (slot st) t'); [|lia]. destruct (N.ltb_spec (slot st) t); [|lia].
+  destruct (N.leb_spec (t' - slot st) MAX_SLOTS_PER_CALL); [|lia].
+  destruct (N.leb_spec (t - slot st) MAX_SLOTS_PER_CALL); [|lia].
   rewrite (slots_loop_compose E (N.to_nat (t - slot st)) f st t t') by lia.
   destruct (slots_loop E (N.to_nat (t - slot st)) f st t) as [[f1 st1]|] eqn:Hl; [|reflexivity].
   apply slots_loop_frame in Hl; [|lia]. destruct Hl as (Hl & _).
-  unfold process_slots. destruct (N.ltb_spec (slot st1) t'); [reflexivity|lia].
+  unfold process_slots. destruct (N.ltb_spec (slot st1) t'); [|lia].
+  destruct (N.leb_spec (t' - slot st1) MAX_SLOTS_PER_CALL); [reflexivity|lia].
 Qed.
 
 (* the named frame facts of the task statement *)
